@@ -5,14 +5,17 @@ key-list diffing, unmod/unshift, overrides, caps-word, custom actions; scrolling
 as counters; idle timeout; held virtual keys), `handle_repeat`, `is_idle`,
 `can_block_update_idle_waiting`, and the processing loop in virtual time.
 
-Not modelled (configurations using them are answered `unsupported` by the harness): sequence mode
-(C12 has its own model), dynamic macros (C19), zippychord (C20), chords v2, `cmd`, clipboard,
+Sequence mode (`sequence_state`, `do_sequence_press_logic`, `tick_sequence_state`, ...) is composed in
+from Model/Sequences.lean through the hooks of Model/KanataSeq.lean (marked `-- [seq]` below).
+
+Not modelled (configurations using them are answered `unsupported` by the harness): dynamic macros (C19), zippychord (C20), chords v2, `cmd`, clipboard,
 live reload (C15). Floating-point mouse distances are not modelled: mouse-move outputs carry the
 direction only. `HashSet`/`HashMap` iteration orders (`waiting_for_idle`, `vkeys_pending_release`)
 are list orders here; the generators keep at most one entry in each.
 -/
 import KVerif.Model.Layout
 import KVerif.Model.Override
+import KVerif.Model.KanataSeq   -- [seq]
 namespace KVerif.K
 open KVerif.L
 
@@ -41,6 +44,9 @@ inductive CAct
   | reverseReleaseOrder
   | unicode (c : Nat)
   | setMouse
+  | seqLeader (timeout : Nat) (mode : Seq.Mode)   -- [seq] `SequenceLeader(timeout, input_mode)`
+  | seqCancel                                     -- [seq] `SequenceCancel`
+  | seqNoerase (n : Nat)                          -- [seq] `SequenceNoerase(count)`
   | other                                      -- no effect on anything modelled
   deriving DecidableEq, Repr, Inhabited
 
@@ -87,6 +93,7 @@ inductive Crash
   | override (c : Override.Crash)
   | underflow (site : String)       -- `interval - 1` etc. on a zero value
   | customId                        -- custom action table lookup failed (serialiser error)
+  | seq (c : Seq.Crash)             -- [seq] `ticks_until_timeout -= 1` at 0, `noerase_count +=` overflow
   deriving Repr
 
 /-- key codes of the eight modifiers in `UnmodMods` bit order (LSft RSft LAlt RAlt LCtl RCtl LMet RMet) -/
@@ -129,6 +136,7 @@ structure KState where
   liveReloadRequested : Bool := false
   switchMaxKeyTiming : Nat := 0
   out : List Os := []                              -- newest last
+  seq : SeqK := {}                                 -- [seq] sequence fields of `Kanata` (Model/KanataSeq.lean)
   deriving Repr
 
 def liftL {α} : Except L.Crash α → Except Crash α
@@ -154,6 +162,13 @@ def releaseKey (k : KState) (kc : KeyCode) : KState :=
     | none => match k.wheelCodes.find? (·.1 == kc) with
       | some _ => k
       | none => k.emit (.up kc)
+
+/-- [seq] the OS events of a sequence function, sent through `press_key` / `release_key` (the
+stand-alone model has already dropped the ignored range; doing so again changes nothing) -/
+def emitSeq (k : KState) : List Seq.Out → KState
+  | [] => k
+  | .down c :: r => emitSeq (pressKey k c) r
+  | .up c :: r => emitSeq (releaseKey k c) r
 
 /-- `write_key(.., Repeat)` -/
 def writeRepeat (k : KState) (kc : KeyCode) : KState :=
@@ -246,6 +261,33 @@ def pressNew (k : KState) (cur : List KeyCode) : KState :=
     if k.prevKeys.contains x then k
     else pressKey { k with prevKeys := k.prevKeys ++ [x], lastPressedKey := x } x) k
 
+/-- [seq] the block between the release loop and the press loop of `handle_keystate_changes`: when
+the last held key has just been released, the overlap variant of the sequence is closed -/
+def seqReleasedHook (k : KState) (cur : List KeyCode) : Except Crash KState :=
+  if cur.isEmpty && !k.prevKeys.isEmpty then
+    match seqAllReleased k.seq k.layout with
+    | .error e => .error (.layout e)
+    | .ok (sk, l, outs) => .ok (emitSeq { k with seq := sk, layout := l } outs)
+  else .ok k
+
+/-- [seq] the press loop of `handle_keystate_changes` as the code has it: a key that was not down is
+recorded in `prev_keys`; with `sequence-always-on` an inactive sequence state is activated; in
+sequence mode the key goes to `do_sequence_press_logic` (with the modifier mask of the whole wanted
+list), otherwise it is pressed.  With sequence mode off and no always-on this is `pressNew`
+(`pressLoop_off` in Lemmas/KanataSeqOff.lean). -/
+def pressLoop (cur : List KeyCode) : List KeyCode → KState → Except Crash KState
+  | [], k => .ok k
+  | x :: xs, k =>
+    if k.prevKeys.contains x then pressLoop cur xs k
+    else
+      let k := { k with prevKeys := k.prevKeys ++ [x], lastPressedKey := x }
+      let k := { k with seq := k.seq.alwaysOnStep }
+      if k.seq.st.active then
+        match seqKeyPress k.seq k.layout x (Seq.modMaskOf cur) with
+        | .error e => .error (.layout e)
+        | .ok (sk, l, outs) => pressLoop cur xs (emitSeq { k with seq := sk, layout := l } outs)
+      else pressLoop cur xs (pressKey k x)
+
 /-- the `CustomEvent::Press` part of `handle_keystate_changes` -/
 def customPress (k : KState) (acts : List CAct) (cur : List KeyCode) : Except Crash (KState × List KeyCode) :=
   let rec go : List CAct → KState → List KeyCode → Option Nat → Except Crash (KState × List KeyCode)
@@ -289,7 +331,8 @@ def customPress (k : KState) (acts : List CAct) (cur : List KeyCode) : Except Cr
         let k := releaseKey k kc
         let k := if capsShift then k.emit (.up k.mods.lsft) else k
         go rest k cur prevBtn
-      | .cancelMacroOnNextPress d => go rest { k with macroOnPressCancelDuration := d } cur prevBtn
+      | .cancelMacroOnNextPress d =>   -- fix PENDING-t5-3: the maximum of the running windows (was `:= d`)
+        go rest { k with macroOnPressCancelDuration := max k.macroOnPressCancelDuration d } cur prevBtn
       | .sendArbitraryCode c => go rest (k.emit (.code c true)) cur prevBtn
       | .capsWord toCap nonterminal timeout toggle =>
         let fresh : CapsWord := { toCap, nonterminal, timeout, timeoutTicks := timeout }
@@ -306,6 +349,20 @@ def customPress (k : KState) (acts : List CAct) (cur : List KeyCode) : Except Cr
           match k.layout.event (.press c) with
           | .error e => .error (.layout e)
           | .ok l => go rest { k with layout := l, vkeysPendingRelease := k.vkeysPendingRelease ++ [(c, dur)] } cur prevBtn
+      -- [seq] begin
+      | .seqLeader timeout mode =>
+        match seqCustom k.seq (.leader timeout mode) with
+        | .error c => .error (.seq c)
+        | .ok (sk, outs) => go rest (emitSeq { k with seq := sk } outs) cur prevBtn
+      | .seqCancel =>
+        match seqCustom k.seq .cancel with
+        | .error c => .error (.seq c)
+        | .ok (sk, outs) => go rest (emitSeq { k with seq := sk } outs) cur prevBtn
+      | .seqNoerase n =>
+        match seqCustom k.seq (.noerase n) with
+        | .error c => .error (.seq c)
+        | .ok (sk, outs) => go rest (emitSeq { k with seq := sk } outs) cur prevBtn
+      -- [seq] end
       | _ => go rest k cur prevBtn
   go acts k cur none
 
@@ -384,7 +441,13 @@ def handleKeystateChanges (k : KState) : Except Crash KState :=
       | .ok (cur, ost) =>
         let k := eraseOverridden { k with overrideStates := ost } ost.toRemove
         let (cur, k) := applyCapsWord k cur
-        let k := pressNew (releaseOld k cur reverse) cur
+        -- [seq] was: `let k := pressNew (releaseOld k cur reverse) cur`
+        match seqReleasedHook (releaseOld k cur reverse) cur with
+        | .error c => .error c
+        | .ok k =>
+        match pressLoop cur cur k with
+        | .error c => .error c
+        | .ok k =>
         match hkcCustom k cur ce with
         | .error c => .error c
         | .ok (k, cur) => .ok { k with curKeys := cur }
@@ -461,7 +524,13 @@ def tickHeldVkeys (k : KState) : Except Crash KState :=
       else go rest k ((c, d - 1) :: kept)
   go k.vkeysPendingRelease k []
 
-/-- `Kanata::tick_states` (sequence mode, dynamic macros and zippychord not modelled) -/
+/-- [seq] `Kanata::tick_sequence_state` -/
+def tickSequenceState (k : KState) : Except Crash KState :=
+  match seqTick k.seq with
+  | .error c => .error (.seq c)
+  | .ok (sk, outs) => .ok (emitSeq { k with seq := sk } outs)
+
+/-- `Kanata::tick_states` (dynamic macros and zippychord not modelled) -/
 def tickStates (k : KState) : Except Crash KState :=
   match handleKeystateChanges k with
   | .error c => .error c
@@ -470,6 +539,9 @@ def tickStates (k : KState) : Except Crash KState :=
   | .error c => .error c
   | .ok k =>
   match handleMoveMouse k with
+  | .error c => .error c
+  | .ok k =>
+  match tickSequenceState k with     -- [seq]
   | .error c => .error c
   | .ok k =>
   match tickIdleTimeout k with
@@ -485,8 +557,17 @@ def outputsFor (k : KState) (layer code : Nat) : Option (List Nat) :=
   | some tbl => (tbl.find? (·.1 == code)).map (·.2)
   | none => none
 
-/-- the first of `outs` (last-listed first) that is currently down, per `handle_repeat_actual` -/
+/-- `repeat_check_order` (fix PENDING-1): last-listed first, every non-modifier before any modifier -/
+def repeatOrder (outs : List Nat) : List Nat :=
+  outs.reverse.filter (fun kc => !Override.isMod kc) ++ outs.reverse.filter (fun kc => Override.isMod kc)
+
+/-- the first of `outs` (in `repeatOrder`) that is currently down, per `handle_repeat_actual` -/
 def repeatCandidate (k : KState) (cur : List KeyCode) (outs : List Nat) : Option Nat :=
+  (repeatOrder outs).find? fun kc => cur.contains kc || k.unshiftedKeys.contains kc || k.unmoddedKeys.contains kc
+
+/-- the scan before fix PENDING-1: plain reverse order (kept for
+`relisted_key_behind_modifier_counterexample`) -/
+def repeatCandidatePinned (k : KState) (cur : List KeyCode) (outs : List Nat) : Option Nat :=
   outs.reverse.find? fun kc => cur.contains kc || k.unshiftedKeys.contains kc || k.unmoddedKeys.contains kc
 
 
@@ -515,6 +596,8 @@ def repeatTarget (k : KState) (cur : List KeyCode) (order : List Nat) (code : Na
 
 /-- `Kanata::handle_repeat` -/
 def handleRepeat (k : KState) (code : Nat) : Except Crash KState :=
+  -- [seq] "While in non-visible sequence mode, don't send key repeats."
+  if k.seq.st.active && k.seq.st.mode != .visibleBackspaced then .ok { k with curKeys := [] } else
   match k.overrides.overrideKeys (k.curKeys ++ k.layout.keycodes) k.overrideStates with
   | .error c => .error (.override c)
   | .ok (cur, ost) =>
@@ -572,7 +655,8 @@ def isIdle (k : KState) : Bool :=
   !(l.states.any fun s => match s with
     | .seqCustomPending _ | .seqCustomActive _ => true
     | .normalKey .. => pressedKeysMeansNotIdle
-    | _ => false)
+    | _ => false) &&
+  !k.seq.st.active      -- [seq] `self.sequence_state.is_inactive()` (last here; the conjuncts are pure)
 
 /-- `Kanata::is_idle` of the pinned commit, before the three `fix:` commits 6f31db9, 1f5ac33,
 6e1cc72 (no `extra_waiting` conjunct; one-shot timeout 0 counted as idle; rapid-event pause ignored) -/
@@ -587,7 +671,8 @@ def isIdlePinned (k : KState) : Bool :=
   !(l.states.any fun s => match s with
     | .seqCustomPending _ | .seqCustomActive _ => true
     | .normalKey .. => pressedKeysMeansNotIdle
-    | _ => false)
+    | _ => false) &&
+  !k.seq.st.active      -- [seq] `self.sequence_state.is_inactive()` (last here; the conjuncts are pure)
 
 /-- `Kanata::can_block_update_idle_waiting` -/
 def canBlockUpdateIdleWaiting (k : KState) (msElapsed : Nat) : KState × Bool :=
